@@ -25,6 +25,7 @@ fn main() {
         "c18v" => { valmode::run_c18v(&a); return }
         "c07e" => { valmode::run_c07e(&a); return }
         "c09w" => { valmode::run_c09w(&a); return }
+        "c06t" => { valmode::run_c06t(&a); return }
         "c14t" => { trackmode::run(&a); return }
         "c20" => { valmode::run_c20(&a); return }
         "tables" => { valmode::dump_tables(&a.out); return }
